@@ -54,7 +54,13 @@ func nonCanonicalScalar(r *gen.Rand) []byte {
 
 // C14: failed setters are atomic; successful ones return the receiver; inputs never modified.
 func C14(c *Ctx) {
-
+	// inputs are also placed against PROT_NONE pages: a read before the start or past the end
+	// of the slice (an unsafe load of a whole word, a length assumed instead of checked) faults
+	arena, aerr := newGuardArena()
+	if aerr != nil {
+		c.Inconclusive("guard pages unavailable: " + aerr.Error())
+		arena = nil
+	}
 	n := c.N(240000, 24000000)
 	for i := int64(0); i < n; i++ {
 		if !c.Mine(i) {
@@ -114,8 +120,21 @@ func C14(c *Ctx) {
 			wholeCopy = append([]byte(nil), whole...)
 			c.Tally("inputs with spare capacity")
 		}
+		if setter != 1 && whole == nil && arena != nil && len(in) <= arena.page {
+			off := arena.page // first byte of the accessible page
+			where := "start"
+			if r.Bool() {
+				off = 2*arena.page - len(in) // last byte is the last accessible one
+				where = "end"
+			}
+			copy(arena.mem[off:off+len(in)], in)
+			in = arena.mem[off : off+len(in) : off+len(in)]
+			c.Tally("inputs placed at the " + where + " of a guard-paged buffer")
+		}
 		inCopy := append([]byte(nil), in...)
 		det := map[string]any{"setter": name, "receiver": rsName, "input": hx(in), "why": why}
+		// value of the receiver after a successful call (set below), for the retention check
+		var valueAfter func() string
 		if setter != 1 {
 			c.Tally(name + ":" + why)
 		}
@@ -213,6 +232,8 @@ func C14(c *Ctx) {
 				}
 			} else if err != nil || p != recv {
 				c.Fail("valid input: expected (receiver, nil)", det)
+			} else {
+				valueAfter = func() string { return string(recv.Bytes()) }
 			}
 		case setter <= 4: // Scalar
 			recv := new(edwards25519.Scalar)
@@ -252,6 +273,8 @@ func C14(c *Ctx) {
 				}
 			} else if err != nil || s != recv {
 				c.Fail("valid input: expected (receiver, nil)", det)
+			} else {
+				valueAfter = func() string { return string(recv.Bytes()) }
 			}
 		default: // Element
 			recv := new(field.Element)
@@ -290,6 +313,8 @@ func C14(c *Ctx) {
 				}
 			} else if err != nil || e != recv {
 				c.Fail("valid input: expected (receiver, nil)", det)
+			} else {
+				valueAfter = func() string { return string(recv.Bytes()) }
 			}
 		}
 		if string(in) != string(inCopy) {
@@ -297,6 +322,18 @@ func C14(c *Ctx) {
 		}
 		if whole != nil && string(whole) != string(wholeCopy) {
 			c.Fail("setter wrote to the caller's memory around its input slice (spare capacity)", det)
+		}
+		// the value must have been copied out of the caller's buffer: overwriting the buffer
+		// after a successful call must not change what the receiver holds
+		if valueAfter != nil && setter != 1 && len(in) > 0 {
+			v0 := valueAfter()
+			for k := range in {
+				in[k] ^= 0xa5
+			}
+			if valueAfter() != v0 {
+				c.Fail("the receiver's value changed when the caller's input buffer was overwritten after the call (the setter kept a reference to its input)", det)
+			}
+			c.Tally("input buffers overwritten after a successful call")
 		}
 		c.Sample(name+":"+why, map[string]any{"setter": name, "receiver": rsName, "input": hx(in), "why": why})
 	}
